@@ -306,6 +306,8 @@ buildexe(struct input *inputs, size_t ninputs, char *output)
 	if (!flags.nostdlib && startfiles[0])
 		arrayaddbuf(&s->cmd, startfiles, sizeof(startfiles));
 	for (i = 0; i < ninputs; ++i) {
+		if (inputs[i].filetype == CHDR)
+			continue;  /* does not take part in linking */
 		if (inputs[i].lib)
 			arrayaddptr(&s->cmd, "-l");
 		arrayaddptr(&s->cmd, inputs[i].name);
